@@ -82,7 +82,7 @@ impl Dump {
         }
         out
     }
-    /// The desugarer wraps every syntactically outermost `exists` in an inferred `: VType` annotation;
+    /// The desugarer wraps every syntactically outermost `exists` (abstract or manifest) in an inferred `: VType` annotation;
     /// removing parentheses around a nested `exists` therefore changes the dump but not the meaning.
     /// `Ann { tm: <Sigma ...>, ty: <Internal(VType)> }` is erased to its `tm`.
     fn expand_term(&self, t: &str, depth: usize) -> String {
@@ -90,7 +90,7 @@ impl Dump {
             if let Some(pos) = rest.find(", ty: ") {
                 let (tm_key, ty_part) = (&rest[..pos], &rest[pos + 6..]);
                 let ty_key = ty_part.trim_end_matches(" })");
-                let tm_is_sigma = self.terms.get(tm_key).map(|x| x.starts_with("Sigma(")).unwrap_or(false);
+                let tm_is_sigma = self.terms.get(tm_key).map(|x| x.starts_with("Sigma(") || x.starts_with("ManifestExists(") || x.starts_with("Exists(")).unwrap_or(false);
                 let ty_is_vtype = self.terms.get(ty_key).map(|x| x.contains("Internal(VType)")).unwrap_or(false);
                 if tm_is_sigma && ty_is_vtype {
                     return self.expand_term(&self.terms[tm_key], depth + 1);
@@ -795,6 +795,10 @@ pub fn eval_case(src: &str, opt: &Opt, origin: &str, tally: &mut Tally, findings
                 "comment-hops-over-an-opening-parenthesis"
             } else if strip(&out1) == strip(&out2) {
                 "trailing-whitespace-in-first-output"
+            } else if multiline_block_comment_mid_line(src) && out1.lines().zip(out2.lines()).any(|(a, b)| a != b && a.trim_start() == b.trim_start()) {
+                "multi-line-block-comment-that-starts-mid-line-is-re-indented" // leading blanks of continuation lines differ
+            } else if src.contains("codata") && out1.lines().zip(out2.lines()).any(|(a, b)| a != b && b.trim_end().ends_with(':') && a.starts_with(b.trim_end())) {
+                "codata-arm-result-type-after-multi-line-parameters" // `(params) : T` -> `(params) :` + T on the next line
             } else if narrow && opt.layout == LayoutIntentions::Preserve && settles {
                 "width-forced-break-read-back-as-intention"
             } else if narrow && settles && scan(src).tokens.iter().filter(|t| *t == "(").count() > r1.iter().filter(|t| *t == "(").count() {
@@ -876,6 +880,22 @@ fn block_comment_before_line_start_construct(src: &str) -> bool {
             return true;
         }
         rest = after;
+    }
+    false
+}
+
+/// a `/- .. -/` comment with a line break inside whose opener is not the first thing on its line
+fn multiline_block_comment_mid_line(src: &str) -> bool {
+    let mut at = 0usize;
+    while let Some(i) = src[at..].find("/-") {
+        let abs = at + i;
+        let line_start = src[..abs].rfind('\n').map_or(0, |p| p + 1);
+        let after = &src[abs..];
+        let end = after.find("-/").map_or(after.len(), |e| e + 2);
+        if after[..end].contains('\n') && !src[line_start..abs].trim().is_empty() {
+            return true;
+        }
+        at = abs + end.max(2);
     }
     false
 }
@@ -1124,7 +1144,11 @@ pub fn replay_format(cases: &str, trace: &str, summary: &str, tier: &str) {
                 if (idx + g) % comment_stride != 0 {
                     continue;
                 }
-                for (ck, ctext) in [("block", "/- note -/"), ("line", "-- note\n"), ("text", "--| note\n")] {
+                for (ck, ctext) in [("block", "/- note -/"), ("line", "-- note\n"), ("text", "--| note\n"), ("mblock", "/- note\n   second line -/")] {
+                    // multi-line block comments: a twelfth of the gaps in the quick tier
+                    if ck == "mblock" && tier == "quick" && (idx + g) % 12 != 0 {
+                        continue;
+                    }
                     let mut parts: Vec<&str> = min_t[..g].to_vec();
                     parts.push(ctext);
                     parts.extend_from_slice(&min_t[g..]);
